@@ -253,6 +253,29 @@ def clause_b(ctx, P):
                                         uses_snap = True
                     if uses_snap:
                         restored[fld] = m
+                        # exactness: data is cut AT the snapshot; a names entry survives iff its offset is strictly
+                        # below it (the entry at the snapshot itself is the first name the discarded record wrote)
+                        if m == "truncate":
+                            e1 = tr.operand(t["args"][1], endpos(wr, b))
+                            exact = any(y[0] == "call" and y[3] == (wr.name, snap) for y in strip(e1))
+                            ctx.ob("C02b.rollback-exact", "%s|%s.truncate" % (wr.name, fld), exact, wr.loc(b),
+                                   "truncate(start_size)" if exact else "truncation length %s is not the snapshot itself" % show(e1)[:60])
+                        if m in ("retain", "retain_mut"):
+                            from .f12 import ret_exprs
+                            exact = False
+                            det = "closure not found"
+                            for a in t["args"][1:]:
+                                for cl in strip(tr.operand(a, endpos(wr, b))):
+                                    if cl[0] == "closure" and cl[1] in P.fns:
+                                        for e in ret_exprs(P, P.fns[cl[1]]):
+                                            det = show(e)[:80]
+                                            if e[0] == "binop" and e[1] in ("Lt", "Gt"):
+                                                lo, hi = (e[2], e[3]) if e[1] == "Lt" else (e[3], e[2])
+                                                from_param = any(x[0] == "param" and x[1] >= 2 for x in walk(lo))
+                                                from_capture = any(x[0] == "field" and any(y[0] == "param" and y[1] == 1 for y in walk(x)) for x in walk(hi))
+                                                exact = from_param and from_capture
+                            ctx.ob("C02b.rollback-exact", "%s|%s.retain" % (wr.name, fld), exact, wr.loc(b),
+                                   "keeps an entry iff offset < start_size: %s" % det if exact else "the retain predicate is not `offset < start_size`: %s" % det)
     for fld in sorted(mod):
         if fld == "state":
             continue
